@@ -190,6 +190,26 @@ def decide(ctx: Ctx, cases: list[dict]):
         ctx.sample({"trace": t, "embeddings": owners[t["id"]]})
 
 
+def tlaps_extras(ctx: Ctx) -> dict:
+    """Unbounded complement (an extra, no verdict depends on it): the cut / halving lemmas of Geometry.tla proved by TLAPS
+    for all integers (specs/proofs/GeometryProofs.tla)."""
+    import os, re, shutil, subprocess
+    src = os.path.join(os.path.dirname(tlc.SPECS), "specs", "proofs", "GeometryProofs.tla")
+    dst = ctx.path("GeometryProofs.tla")
+    try:
+        shutil.copy(src, dst)
+        p = subprocess.run(["tlapm", "--toolbox", "0", "0", "--cleanfp", "GeometryProofs.tla"], cwd=ctx.work, capture_output=True,
+                           text=True, timeout=600)
+        out = p.stdout + p.stderr
+        m = re.search(r"All (\d+) obligations? proved", out)
+        if m:
+            return {"module": "specs/proofs/GeometryProofs.tla", "obligations": int(m.group(1)), "discharged": int(m.group(1)),
+                    "checker_cmd": "tlapm --toolbox 0 0 --cleanfp GeometryProofs.tla"}
+        return {"module": "specs/proofs/GeometryProofs.tla", "status": "not all obligations proved", "tail": out[-300:]}
+    except Exception as e:
+        return {"status": f"tlapm not run: {type(e).__name__}: {e}"}
+
+
 def run(ctx: Ctx) -> int:
     if ctx.replay:
         import json
@@ -206,6 +226,8 @@ def run(ctx: Ctx) -> int:
     rng = random.Random(ctx.seed * 1000003 + 18)
     cases += random_cases(rng, 600 if tier == "quick" else 6000)
     decide(ctx, cases)
+    if tier == "thorough":
+        ctx.extra["tlaps"] = tlaps_extras(ctx)
     ctx.extra["embeddings"] = ALL
     ctx.extra["cases_from_tlc"] = len(cases)
     ctx.assumptions += [
